@@ -15,10 +15,18 @@ vars == <<ph, cv, target, bv>>
 \* digit strings at digit-count boundaries and around unit switches
 Nines(k) == [i \in 1..k |-> 9]
 OneZeros(k) == <<1>> \o [i \in 1..(k - 1) |-> 0]
+OnePlus(k) == <<1>> \o [i \in 1..(k - 2) |-> 0] \o <<1>>
+NinesMinus(k) == [i \in 1..(k - 1) |-> 9] \o <<8>>
+Fives(k) == [i \in 1..k |-> 5]
 BoundaryDigits(maxk) ==
     {<<0>>, <<1>>, <<9>>, <<5, 9>>, <<6, 0>>, <<6, 1>>, <<9, 9, 9>>, <<1, 0, 0, 0>>, <<1, 0, 0, 1>>, <<3, 5, 9, 9>>, <<3, 6, 0, 0>>, <<3, 6, 0, 1>>,
      <<2, 8, 8, 0, 0>>, <<2, 8, 8, 0, 1>>, <<8, 6, 4, 0, 0>>, <<1, 2, 3, 4, 5, 6, 7>>}
     \cup {Nines(k) : k \in 1..maxk} \cup {OneZeros(k) : k \in 2..maxk}
+    \* thorough: also one above and one below every power of ten, and a value in the middle of every digit count
+    \cup (IF Tier = "thorough"
+          THEN {OnePlus(k) : k \in 2..maxk} \cup {NinesMinus(k) : k \in 2..maxk} \cup {Fives(k) : k \in 1..maxk}
+               \cup {<<1, 0, 0>>, <<1, 0, 0, 0, 0, 0>>, <<1, 0, 0, 0, 0, 0, 0, 0, 0>>, <<5, 9, 9, 9, 9>>, <<7, 2, 0, 0>>}
+          ELSE {})
 
 GrpcValues == {[kind |-> "grpc", digits |-> ds, unit |-> u] : ds \in BoundaryDigits(8), u \in Units}
               \cup {[kind |-> "grpc", digits |-> <<8>>, unit |-> "H"], [kind |-> "grpc", digits |-> <<9>>, unit |-> "H"],
